@@ -47,6 +47,7 @@ pub fn mut_name(m: &Mutation) -> &'static str {
         Mutation::TruncateRaw(_) => "trunc_raw",
         Mutation::ExtendFramed(_) => "extend",
         Mutation::SumEdge { .. } => "sum_edge",
+        Mutation::WordAdd { .. } => "word_add",
     }
 }
 
